@@ -195,11 +195,21 @@ proof fn lemma_key9_consts()
 }
 #[verifier::external_body]
 proof fn ax_p2_generator() ensures valid2(SM9_TWIST_POINT_MONT_P2), abs2(SM9_TWIST_POINT_MONT_P2) == G2P() { }
-//@section assumed gm-sm9/src/u256.rs
+//@section code gm-sm9/src/u256.rs
 fn xor(k: &[u8], data: &[u8], len: usize) -> (ret: Vec<u8>)
     requires len <= k@.len(), len <= data@.len()
     ensures ret@ == s_xor(k@.subrange(0, len as int), data@.subrange(0, len as int))
-{ unimplemented!() }
+{
+    let mut ret: Vec<u8> = vec![];
+    for i in 0..len
+        invariant len <= k@.len(), len <= data@.len(), ret@.len() == i,
+            forall|j: int| 0 <= j < i ==> ret@[j] == k@[j] ^ data@[j],
+    {
+        ret.push(k[i] ^ data[i]);
+    }
+    proof { assert(ret@ =~= s_xor(k@.subrange(0, len as int), data@.subrange(0, len as int))); }
+    ret
+}
 //@section assumed gm-sm9/src/points.rs
 impl Point {
     fn from_bytes(b: &[u8]) -> (r: Self)
